@@ -134,6 +134,7 @@ class _SyncCache[**Args, Result]:
 
     def __call__(
         self,
+        /,
         *args: Args.args,
         **kwargs: Args.kwargs,
     ) -> Result:
@@ -171,6 +172,7 @@ class _SyncCache[**Args, Result]:
     def __method_call__(
         self,
         __method_self: object,
+        /,
         *args: Args.args,
         **kwargs: Args.kwargs,
     ) -> Result:
@@ -251,6 +253,7 @@ class _AsyncCache[**Args, Result]:
 
     async def __call__(
         self,
+        /,
         *args: Args.args,
         **kwargs: Args.kwargs,
     ) -> Result:
@@ -288,6 +291,7 @@ class _AsyncCache[**Args, Result]:
     async def __method_call__(
         self,
         __method_self: object,
+        /,
         *args: Args.args,
         **kwargs: Args.kwargs,
     ) -> Result:
